@@ -64,11 +64,25 @@ func GenProtoKeys(r *ref.Rand, n int) []string {
 // GenBody returns a value containing CR, LF and NUL bytes at interesting places.
 func GenBody(r *ref.Rand, max int) []byte {
 	n := r.Pick(0, 1, 2, 5, r.Range(0, 300), r.Range(0, max))
+	if max > 10240+16 && r.Intn(8) == 0 {
+		// both sides of the 10 KB compression probe (TRY_COMPRESS_SIZE)
+		n = r.Pick(10239, 10240, 10241, 10242, r.Range(10241, max))
+	}
 	if n > max {
 		n = max
 	}
 	b := r.Bytes(n)
-	switch r.Intn(5) {
+	switch r.Intn(7) {
+	case 5: // periodic: what an LZ compressor shrinks (server-side compression applies above one block)
+		p := r.Range(1, 40)
+		for i := p; i < n; i++ {
+			b[i] = b[i-p]
+		}
+	case 6: // words from a small dictionary, CR/LF inside
+		words := []string{"lorem ", "ipsum\r\n", "dolor ", "END\r\n", "sit amet, ", "\x00\x01", "consectetur "}
+		for i := 0; i < n; {
+			i += copy(b[i:], words[r.Intn(len(words))])
+		}
 	case 0:
 		const a = "\r\n\x00 END\r\nSTORED\r\nget k\r\n"
 		for i := range b {
